@@ -1,0 +1,123 @@
+//go:build verif
+// +build verif
+
+package dosnode
+
+// Verification hooks (build tag verif): thin exports of unexported entry
+// points, no logic of their own beyond building the receiver the real
+// function needs. Not compiled without the tag.
+
+import (
+	"context"
+	"math/big"
+	"time"
+
+	"github.com/DOSNetwork/core/log"
+	"github.com/DOSNetwork/core/onchain"
+	"github.com/DOSNetwork/core/p2p"
+	"github.com/DOSNetwork/core/share"
+	"github.com/DOSNetwork/core/share/dkg/pedersen"
+	"github.com/DOSNetwork/core/share/vss/pedersen"
+	"github.com/DOSNetwork/core/suites"
+)
+
+const (
+	VerifRandNumberSize = randNumberSize
+	VerifAddrLen        = addrLen
+)
+
+// VerifNewNode builds a DosNode around injected doubles (what NewDosNode does
+// minus key store, network and chain set-up). reqBuf is the capacity of the
+// registration channel (NewDosNode uses 21); l == nil means log.New as in
+// NewDosNode (log.Init must have been called).
+func VerifNewNode(id []byte, p p2p.P2PInterface, c onchain.ProxyAdapter, d dkg.PDKGInterface, reqBuf int, l log.Logger) *DosNode {
+	if l == nil {
+		l = log.New("module", "dosclient")
+	}
+	ctx, cancel := context.WithCancel(context.Background())
+	return &DosNode{
+		ctx:          ctx,
+		cancel:       cancel,
+		suite:        suites.MustFind("bn256"),
+		p:            p,
+		chain:        c,
+		dkg:          d,
+		done:         make(chan interface{}),
+		reqSignc:     make(chan request, reqBuf),
+		cRequestDone: make(chan [4]*big.Int),
+		id:           id,
+		logger:       l,
+		startTime:    time.Now(),
+		state:        "Init Done",
+	}
+}
+
+// VerifQueryLoop runs queryLoop until the node's context is cancelled.
+func (d *DosNode) VerifQueryLoop() { d.queryLoop() }
+
+// VerifOnchainLoop runs onchainLoop.
+func (d *DosNode) VerifOnchainLoop() { d.onchainLoop() }
+
+// VerifCancel cancels the node's context (what End does, without touching chain / p2p).
+func (d *DosNode) VerifCancel() { d.cancel() }
+
+// VerifRegister hands queryLoop the registration dispatchSign would send
+// (fresh unbuffered reply channel, as in dispatchSign) and returns that channel.
+func (d *DosNode) VerifRegister(ctx context.Context, requestID string, threshold int) chan *vss.Signature {
+	reply := make(chan *vss.Signature)
+	d.reqSignc <- request{ctx: ctx, requestID: requestID, threshold: threshold, reply: reply}
+	return reply
+}
+
+// VerifRegisterChan is VerifRegister with a caller-supplied reply channel.
+func (d *DosNode) VerifRegisterChan(ctx context.Context, requestID string, threshold int, reply chan *vss.Signature) {
+	d.reqSignc <- request{ctx: ctx, requestID: requestID, threshold: threshold, reply: reply}
+}
+
+func (d *DosNode) VerifHandleQuery(ids [][]byte, pubPoly *share.PubPoly, sec *share.PriShare, groupID string, requestID, lastRand, useSeed *big.Int, url, selector string, pType uint32) {
+	d.handleQuery(ids, pubPoly, sec, groupID, requestID, lastRand, useSeed, url, selector, pType)
+}
+
+func (d *DosNode) VerifDispatchSign(ctx context.Context, submitterc chan []byte, signc chan *vss.Signature, requestID []byte, threshold int) chan *vss.Signature {
+	return dispatchSign(ctx, submitterc, signc, d.reqSignc, d.p, requestID, threshold, d.logger)
+}
+
+func VerifChoseSubmitter(ctx context.Context, p p2p.P2PInterface, e onchain.ProxyAdapter, lastSysRand *big.Int, ids [][]byte, outCount int, logger log.Logger) ([]chan []byte, chan error) {
+	return choseSubmitter(ctx, p, e, lastSysRand, ids, outCount, logger)
+}
+
+func VerifGenSysRandom(ctx context.Context, submitterc chan []byte, lastSysRand []byte, logger log.Logger) chan []byte {
+	return genSysRandom(ctx, submitterc, lastSysRand, logger)
+}
+
+func VerifGenUserRandom(ctx context.Context, submitterc chan []byte, requestId []byte, lastSysRand []byte, userSeed []byte, logger log.Logger) chan []byte {
+	return genUserRandom(ctx, submitterc, requestId, lastSysRand, userSeed, logger)
+}
+
+func VerifGenQueryResult(ctx context.Context, submitterc chan []byte, url string, pathStr string, logger log.Logger) (chan []byte, chan error) {
+	return genQueryResult(ctx, submitterc, url, pathStr, logger)
+}
+
+func VerifGenSign(ctx context.Context, contentc chan []byte, sec *share.PriShare, suite suites.Suite, sign *vss.Signature, logger log.Logger) (chan *vss.Signature, chan error) {
+	return genSign(ctx, contentc, sec, suite, sign, logger)
+}
+
+func VerifRecoverSign(ctx context.Context, signc chan *vss.Signature, suite suites.Suite, pubPoly *share.PubPoly, nbThreshold int, nbParticipants int, logger log.Logger) (chan *vss.Signature, chan error) {
+	return recoverSign(ctx, signc, suite, pubPoly, nbThreshold, nbParticipants, logger)
+}
+
+func VerifReportQueryResult(ctx context.Context, chain onchain.ProxyAdapter, queryType uint32, signC chan *vss.Signature) chan error {
+	return reportQueryResult(ctx, chain, queryType, signC)
+}
+
+func VerifMergeErrors(ctx context.Context, cs ...chan error) chan error { return mergeErrors(ctx, cs...) }
+
+func VerifFanIn(ctx context.Context, channels ...chan *vss.Signature) chan *vss.Signature {
+	return fanIn(ctx, channels...)
+}
+
+func VerifPadOrTrim(bb []byte, size int) []byte { return padOrTrim(bb, size) }
+
+func VerifDataParse(rawMsg []byte, pathStr string) ([]byte, error) { return dataParse(rawMsg, pathStr) }
+
+func VerifDataFetch(url string) ([]byte, error) { return dataFetch(url) }
